@@ -445,11 +445,90 @@ pub fn add_twin(t: &mut OpTable, variant: usize, rng: &mut Rng) {
     }
 }
 
+/// LR(1)-but-not-LALR(1) behind a GLR entry: `start → ctx_i n_j t_(i+j)`, `n_j → 'q' e_j`, `e_j → 'x'`, and one
+/// more alternative `n_0 → w e2` with `w → 'q'`, `e2 → 'x' 'y'`; declared conflict `[n_0 … n_(k-1), w]`.  After
+/// `ctx_i q` the cell on `x` holds [REDUCE w, SHIFT]; the shift targets (`e_j → x •` with look-aheads that
+/// depend on the context) must stay split, hence so must the states that hold the GLR entry.
+#[allow(dead_code)]
+pub fn lalr_glr_grammar(rng: &mut Rng, name: &str) -> Value {
+    let k = rng.range(2, 3);
+    let ctx = ["a", "b", "g"];
+    let term = ["c", "d", "f"];
+    let shift = rng.below(k);
+    let mut alts = Vec::new();
+    for i in 0..k {
+        for j in 0..k {
+            let t = term[(i + j + shift) % k];
+            let mut ms = vec![s(ctx[i]), sym(&format!("n{j}")), s(t)];
+            if rng.chance(1, 4) {
+                ms.push(s("z"));
+            }
+            alts.push(seq(ms));
+        }
+    }
+    let mut rules: Vec<(String, Value)> = vec![("start".into(), if rng.chance(1, 3) { rep1(choice(alts)) } else { choice(alts) })];
+    let extra_in = rng.below(k);
+    let mut conflict: Vec<String> = Vec::new();
+    for j in 0..k {
+        let main = seq(vec![s("q"), sym(&format!("e{j}"))]);
+        rules.push((format!("n{j}"), if j == extra_in { choice(vec![main, seq(vec![sym("w"), sym("e2x")])]) } else { main }));
+        conflict.push(format!("n{j}"));
+    }
+    conflict.push("w".into());
+    for j in 0..k {
+        rules.push((format!("e{j}"), s("x")));
+    }
+    rules.push(("w".into(), s("q")));
+    rules.push(("e2x".into(), seq(vec![s("x"), s("y")])));
+    grammar(name, rules, vec![pattern("\\s")], vec![], vec![conflict])
+}
+
+/// Make binary operators alternatives of ONE rule (`binary: choice(prec.left(1, e + e), prec.right(1, e ^ e))`).
+/// `mixed`: additionally put two operators with different texts on the same level with opposite
+/// associativity inside one rule (the yacc-style "same level, mixed associativity" table).
+#[allow(dead_code)]
+pub fn group_rules(t: &mut OpTable, mixed: bool, rng: &mut Rng) {
+    let n = t.bin.len();
+    if n < 2 {
+        return;
+    }
+    if mixed {
+        let i = rng.below(n);
+        let mut j = rng.below(n);
+        let mut tries = 0;
+        while (j == i || t.bin[j].0 == t.bin[i].0) && tries < 8 {
+            j = rng.below(n);
+            tries += 1;
+        }
+        if j != i && t.bin[j].0 != t.bin[i].0 {
+            t.bin[j].1 = t.bin[i].1;
+            t.bin[j].2 = !t.bin[i].2;
+            let name = t.bin[i].3.clone();
+            t.bin[j].3 = name;
+        }
+    }
+    // random further grouping: each operator joins the rule of an earlier one with probability 1/2
+    for k in 1..n {
+        if rng.chance(1, 2) {
+            let e = rng.below(k);
+            let name = t.bin[e].3.clone();
+            t.bin[k].3 = name;
+        }
+    }
+}
+
 /// The tree-sitter grammar of an operator table (mirrored by `TsVerif.C03.opGrammarRules` in Lean).
 pub fn op_grammar(name: &str, t: &OpTable) -> Value {
     let mut alts = vec![sym("num"), sym("paren")];
     let mut rules: Vec<(String, Value)> = Vec::new();
+    // binary operators that carry the same rule name are alternatives of ONE rule
+    let mut bin_names: Vec<String> = Vec::new();
     for (_, _, _, n) in &t.bin {
+        if !bin_names.contains(n) {
+            bin_names.push(n.clone());
+        }
+    }
+    for n in &bin_names {
         alts.push(sym(n));
     }
     for (_, _, n, _) in &t.un {
@@ -460,8 +539,15 @@ pub fn op_grammar(name: &str, t: &OpTable) -> Value {
     }
     rules.push(("program".into(), sym("_e")));
     rules.push(("_e".into(), choice(alts)));
-    for (text, lv, right, n) in &t.bin {
-        rules.push((n.clone(), prec(if *right { "PREC_RIGHT" } else { "PREC_LEFT" }, *lv, seq(vec![sym("_e"), s(text), sym("_e")]))));
+    for n in &bin_names {
+        let mut members: Vec<Value> = t
+            .bin
+            .iter()
+            .filter(|b| &b.3 == n)
+            .map(|(text, lv, right, _)| prec(if *right { "PREC_RIGHT" } else { "PREC_LEFT" }, *lv, seq(vec![sym("_e"), s(text), sym("_e")])))
+            .collect();
+        let body = if members.len() == 1 { members.pop().unwrap() } else { choice(members) };
+        rules.push((n.clone(), body));
     }
     for (text, lv, n, annotated) in &t.un {
         let body = seq(vec![s(text), sym("_e")]);
